@@ -159,6 +159,19 @@ class LexInterp:
             return ("end", "err", None, e.data if isinstance(e, ErrVal) else None)
         raise Undecided("advance returns something else than Ok(token) / Err(error): %r" % (v,))
 
+    def _local_body(self, callee_path):
+        """HIR body of a local function of the lexer module that is not part of the trusted
+        Cursor vocabulary (cursor.rs)"""
+        if not callee_path.startswith("apollo_parser::lexer::") or "lexer::cursor::Cursor::<'a>::" in callee_path:
+            return None
+        cache = self.__dict__.setdefault("_bodies", None)
+        if cache is None:
+            cache = {}
+            for uid, b in self.prog.hir("apollo_parser").items():
+                cache[b["name"]] = b
+            self._bodies = cache
+        return cache.get(callee_path)
+
     # cursor vocabulary ------------------------------------------------------
     def bump(self):
         cur = self.cur
@@ -424,6 +437,10 @@ class LexInterp:
                 return self.call_local(self.b_eof, [self.eval(a, env) for a in e["args"]])
             if cal.endswith("Cursor<'a>>::unterminated_spread_operator"):
                 return self.call_local(self.b_unterm, [self.eval(a, env) for a in e["args"]])
+            # a private helper method of the lexer (e.g. extracted from `advance`): interpret its body
+            hb = self._local_body(cal)
+            if hb is not None:
+                return self.call_local(hb, [self.eval(a, env) for a in e["args"]])
             raise Undecided("method %s on the cursor is outside the vocabulary" % cal)
         args = [self.eval(a, env) for a in e["args"]]
         if isinstance(recv, ErrVal):
@@ -473,7 +490,18 @@ class LexInterp:
             return Opaque("from_u32")
         if path.split("::")[0] == "apollo_parser":
             args = [self.eval(a, env) for a in e["args"]]
-            if any(isinstance(a, (Opaque, TokenVal, ErrVal, Lexeme)) for a in args):
+            if any(isinstance(a, (Opaque, TokenVal, ErrVal, Lexeme)) or a == "SELF" for a in args):
+                hb = self._local_body(path)
+                if hb is not None and len(hb["params"]) == len(args):
+                    env2 = {}
+                    for p, a in zip(hb["params"], args):
+                        if p.get("k") != "bind":
+                            raise Undecided("parameter pattern in %s" % path)
+                        env2[p["id"]] = a.copy() if isinstance(a, TokenVal) else a
+                    try:
+                        return self.eval(hb["body"], env2)
+                    except _Return as r:
+                        return r.v
                 raise Undecided("local function %s called with a non-scalar value" % path)
             return self.ev.call(path, args)
         raise Undecided("call to %s in the lexer" % path)
